@@ -45,7 +45,7 @@ func init() {
 	sort.Strings(c07PropNames)
 }
 
-var c07Entries = []string{"css", "selector", "selector", "validate", "validate", "validate", "mutate", "mutate", "mutate", "computed", "descriptors", "descriptors", "page", "color", "nth", "media", "svg", "svg", "svg", "svgattr", "url", "htmlattr", "htmlattr"}
+var c07Entries = []string{"css", "selector", "selector", "validate", "validate", "validate", "mutate", "mutate", "mutate", "computed", "descriptors", "descriptors", "page", "color", "nth", "media", "svg", "svg", "svg", "svgattr", "svglist", "url", "htmlattr", "htmlattr"}
 
 var c07Pieces = regexp.MustCompile(`"[^"]*"|'[^']*'|[(),/]|[^\s(),/]+`)
 
@@ -154,6 +154,20 @@ func c07Gen(t *rapid.T, tier Tier) interface{} {
 		}
 	case "svg":
 		c.Src = gen.SVGDocument(t, rapid.IntRange(0, 2).Draw(t, "h") > 0)
+	case "svglist":
+		// a list-valued SVG attribute with one malformed item: Src holds it at a drawn place, Aux at the end
+		n := rapid.IntRange(2, 5).Draw(t, "nitems")
+		var items []string
+		for i := 0; i < n; i++ {
+			items = append(items, rapid.SampledFrom([]string{"1", "2.5", "4", "10", "0.5em", "3px", "7"}).Draw(t, "item"))
+		}
+		bad := rapid.SampledFrom([]string{"bogus", "1x", "zero", "1furlong", "#", "e"}).Draw(t, "baditem")
+		at := rapid.IntRange(0, n-1).Draw(t, "badat")
+		withBad := func(p int) string {
+			out := append(append(append([]string{}, items[:p]...), bad), items[p:]...)
+			return strings.Join(out, " ")
+		}
+		c.Src, c.Aux = withBad(at), withBad(n)
 	case "svgattr":
 		c.Aux = rapid.SampledFrom([]string{"d", "points", "transform", "viewBox", "preserveAspectRatio", "stroke-dasharray", "style", "width", "font-size", "fill", "offset"}).Draw(t, "an")
 		var v string
@@ -313,6 +327,22 @@ func c07Check(ci interface{}) Verdict {
 			img.DisplayedSize()
 			img.Draw(page, 100, 80, wr.NewTextCtx("pango"))
 		}
+	case "svglist":
+		// bad input is signalled wherever it stands in the list: the verdict on the list with the malformed
+		// item in the middle is the verdict on the same list with that item at the end
+		for _, tmpl := range []string{
+			`<svg xmlns="http://www.w3.org/2000/svg" width="100" height="100"><rect width="50" height="50" stroke="red" stroke-dasharray="%s"/></svg>`,
+			`<svg xmlns="http://www.w3.org/2000/svg" width="100" height="100"><text x="%s">abc</text></svg>`,
+			`<svg xmlns="http://www.w3.org/2000/svg" width="100" height="100"><text dy="%s">abc</text></svg>`,
+		} {
+			_, errMid := wr.ParseSVG(fmt.Sprintf(tmpl, c.Src), "http://base/")
+			_, errEnd := wr.ParseSVG(fmt.Sprintf(tmpl, c.Aux), "http://base/")
+			if (errMid == nil) != (errEnd == nil) {
+				return Viol("svg:list:malformed-item-position", "%s: with the malformed item inside (%q) the error is %v, with the same item last (%q) it is %v", tmpl[strings.Index(tmpl, "><")+2:strings.Index(tmpl, "=\"%s")], c.Src, errMid, c.Aux, errEnd)
+			}
+		}
+		labels = append(labels, "svglist")
+		nt = true
 	case "url":
 		_, err := utils.DefaultUrlFetcher(c.Src)
 		if err != nil {
